@@ -297,14 +297,29 @@ func govern(ts []token) (occs []occurrence, ungoverned []int) {
 			continue
 		}
 		found := false
+		depth := 0
 		for j := i - 1; j >= 0; j-- {
+			// a closed parenthesised group to the left is skipped as a whole
+			if isP(ts[j], ")") {
+				depth++
+				continue
+			}
+			if isP(ts[j], "(") {
+				if depth > 0 {
+					depth--
+				}
+				continue
+			}
+			if depth > 0 {
+				continue
+			}
 			if isCol(ts, j) {
 				add("C"+itoa(j), ts[j].text, i)
 				found = true
 				break
 			}
-			if ts[j].kind == tWord && (ts[j].text == "LIMIT" || ts[j].text == "OFFSET") {
-				add("C"+itoa(j), ts[j].text, i)
+			if k := keywordKey(ts[j]); k != "" {
+				add("C"+itoa(j), k, i)
 				found = true
 				break
 			}
@@ -316,12 +331,33 @@ func govern(ts []token) (occs []occurrence, ungoverned []int) {
 	return
 }
 
+// keywordKey: keywords that govern a placeholder which has no column of its
+// own (the shortest template spellings "?" / "(?)"): LIMIT ?, OFFSET ?,
+// FROM ? / INTO ? / UPDATE ? (key TABLE), SELECT ?, ORDER BY ?, and a bare
+// condition after WHERE / HAVING / ON / AND / OR (key COND).
+func keywordKey(t token) string {
+	if t.kind != tWord {
+		return ""
+	}
+	switch t.text {
+	case "LIMIT", "OFFSET", "SELECT", "ORDER":
+		return t.text
+	case "FROM", "INTO", "UPDATE":
+		return "TABLE"
+	case "WHERE", "HAVING", "ON", "AND", "OR":
+		return "COND"
+	}
+	return ""
+}
+
 // colsPresent returns the set of column names occurring in the text.
 func colsPresent(ts []token) map[string]bool {
 	m := map[string]bool{}
 	for i := range ts {
-		if isCol(ts, i) || (ts[i].kind == tWord && (ts[i].text == "LIMIT" || ts[i].text == "OFFSET")) {
+		if isCol(ts, i) {
 			m[ts[i].text] = true
+		} else if k := keywordKey(ts[i]); k != "" {
+			m[k] = true
 		}
 	}
 	return m
